@@ -116,6 +116,13 @@ def main():
         # restore Gen/ for the real repository
     json.dump(res, open(os.path.join(seed_dir, "verified.json"), "w"), indent=1)
     print(json.dumps({k: v for k, v in res.items() if k not in ("check_tail",)}, indent=1))
+    # every scratch worktree path leaves its own entries in the Go build cache: keep it bounded
+    try:
+        rc, out = sh("du -sm /root/.cache/go-build 2>/dev/null | cut -f1")
+        if rc == 0 and out.strip().isdigit() and int(out.strip()) > 30000:
+            sh(["go", "clean", "-cache"])
+    except Exception:
+        pass
 
 
 if __name__ == "__main__":
